@@ -111,10 +111,10 @@ MUTANTS += [
 ]
 MUTANTS += [
  dict(id='C05-mark-before-write', props=['C05', 'C04'], expect='R-WTM/mark/transfer.RecvManifestMultiStream$5',
-      edits=[(MS, '\t\t\t\toffset := int64(chunkIndex) * int64(state.chunkSize)\n\t\t\t\tif err := writeAtWithTimeout(recvCtx, f, buf[:chunkLen], offset, state.item.RelPath); err != nil {\n\t\t\t\t\tbufPool.Put(buf)\n\t\t\t\t\tfinalizeFile(state, false, err.Error())\n\t\t\t\t\tdataErrCh <- err\n\t\t\t\t\treturn\n\t\t\t\t}\n\t\t\t\tdone, added := state.markChunkComplete(chunkIndex, chunkLen)\n',
-              '\t\t\t\toffset := int64(chunkIndex) * int64(state.chunkSize)\n\t\t\t\tdone, added := state.markChunkComplete(chunkIndex, chunkLen)\n\t\t\t\tif err := writeAtWithTimeout(recvCtx, f, buf[:chunkLen], offset, state.item.RelPath); err != nil {\n\t\t\t\t\tbufPool.Put(buf)\n\t\t\t\t\tfinalizeFile(state, false, err.Error())\n\t\t\t\t\tdataErrCh <- err\n\t\t\t\t\treturn\n\t\t\t\t}\n')]),
+      edits=[(MS, '\t\t\t\toffset := int64(chunkIndex) * int64(state.chunkSize)\n\t\t\t\tif err := writeAtWithTimeout(recvCtx, f, buf[:chunkLen], offset, state.item.RelPath); err != nil {\n\t\t\t\t\treleaseChunkBuf(bufPool, buf, err)\n\t\t\t\t\tfinalizeFile(state, false, err.Error())\n\t\t\t\t\tdataErrCh <- err\n\t\t\t\t\treturn\n\t\t\t\t}\n\t\t\t\tdone, added := state.markChunkComplete(chunkIndex, chunkLen)\n',
+              '\t\t\t\toffset := int64(chunkIndex) * int64(state.chunkSize)\n\t\t\t\tdone, added := state.markChunkComplete(chunkIndex, chunkLen)\n\t\t\t\tif err := writeAtWithTimeout(recvCtx, f, buf[:chunkLen], offset, state.item.RelPath); err != nil {\n\t\t\t\t\treleaseChunkBuf(bufPool, buf, err)\n\t\t\t\t\tfinalizeFile(state, false, err.Error())\n\t\t\t\t\tdataErrCh <- err\n\t\t\t\t\treturn\n\t\t\t\t}\n')]),
  dict(id='C05-write-error-ignored', props=['C05'], expect='R-WTM/mark/transfer.RecvManifestMultiStream$5',
-      edits=[(MS, '\t\t\t\tif err := writeAtWithTimeout(recvCtx, f, buf[:chunkLen], offset, state.item.RelPath); err != nil {\n\t\t\t\t\tbufPool.Put(buf)\n\t\t\t\t\tfinalizeFile(state, false, err.Error())\n\t\t\t\t\tdataErrCh <- err\n\t\t\t\t\treturn\n\t\t\t\t}\n',
+      edits=[(MS, '\t\t\t\tif err := writeAtWithTimeout(recvCtx, f, buf[:chunkLen], offset, state.item.RelPath); err != nil {\n\t\t\t\t\treleaseChunkBuf(bufPool, buf, err)\n\t\t\t\t\tfinalizeFile(state, false, err.Error())\n\t\t\t\t\tdataErrCh <- err\n\t\t\t\t\treturn\n\t\t\t\t}\n',
               '\t\t\t\t_ = writeAtWithTimeout(recvCtx, f, buf[:chunkLen], offset, state.item.RelPath)\n')]),
  dict(id='C05-legacy-mark-on-error', props=['C05'], expect='R-WTM/mark/transfer.receiveFileChunksWindowed',
       edits=[(MP, '\t\t\t\t\tdefault:\n\t\t\t\t\t}\n\t\t\t\t\treturn\n\t\t\t\t}\n\n\t\t\t\tif resume != nil && resume.sidecar != nil {', '\t\t\t\t\tdefault:\n\t\t\t\t\t}\n\t\t\t\t}\n\n\t\t\t\tif resume != nil && resume.sidecar != nil {')]),
@@ -873,7 +873,7 @@ MUTANTS += [
  dict(id='R5-benign-hash-read-exact-buffer', props=['C04', 'C06'], expect='SILENT',
       edits=[(MS, _HFC_OLD, '\tn, err := file.ReadAt(buf[:chunkLen], offset)\n\tif err != nil {\n')]),
  dict(id='R5-benign-sender-read-eof-not-exempt', props=['C04', 'C06', 'C02'], expect='SILENT',
-      edits=[(MS, '\t\t\t\tif err != nil && err != io.EOF && err != io.ErrUnexpectedEOF {\n\t\t\t\t\tbufPool.Put(buf)', '\t\t\t\tif err != nil {\n\t\t\t\t\tbufPool.Put(buf)')]),
+      edits=[(MS, '\t\t\t\tif err != nil && err != io.EOF && err != io.ErrUnexpectedEOF {\n\t\t\t\t\treleaseChunkBuf(bufPool, buf, err)', '\t\t\t\tif err != nil {\n\t\t\t\t\treleaseChunkBuf(bufPool, buf, err)')]),
  # R-CAPTURE-STABLE
  dict(id='R5-extra-conn-declared-outside-loop', props=['C08', 'C09'], expect='R-CAPTURE-STABLE/stable-capture/',
       edits=[(SR, '\tgo func() {\n\t\tfor {\n' + _ACC_OLD[:0] + '\t\t\tconn, err := transport.Accept(acceptCtx)\n', '\tgo func() {\n\t\tvar conn transfer.Conn\n\t\tvar err error\n\t\tfor {\n\t\t\tconn, err = transport.Accept(acceptCtx)\n')]),
